@@ -237,8 +237,10 @@ Fixpoint check_steps (prop : N) (i : N) (st : state) (prev : obs) (l : list tste
       let hok_m := is_ok (step st blk sender o) in
       let '(st', ok_m, ms_m) := tx st blk sender o (Bool.eqb ok hok) in
       if negb (Bool.eqb hok hok_m) then
-        (* accept/reject divergence with the contract holding: continue from the observed state *)
-        check_steps prop (i + 1) (state_of_obs (subkeys st) after) after r
+        (* accept/reject divergence with the contract holding: continue from the observed state; for C07, whose
+           authorisation is judged on the state the history implies, from the model's state before the call (a
+           call the specification refuses grants nothing, whatever the contract stored) *)
+        check_steps prop (i + 1) (if prop =? 7 then st else state_of_obs (subkeys st) after) after r
       else if negb (corr prop st' after blk)
       then (i, 50) :: check_steps prop (i + 1) (state_of_obs (subkeys st) after) after r   (* go on from the observed state *)
       else if (prop =? 7) && hok && negb (list_eqb cmsg_eqb relayed (match step st blk sender o with Ok (_, ms) => ms | _ => [] end))
